@@ -175,44 +175,219 @@ stubs! { fn u12_taiko_protocol_hhn() {
     all_states(&[true, true, false]);
 } }
 
-//@ obl: id=U12.taiko.protocol.hhhh harness=u12_taiko_protocol_hhhh props=C15,C02 tier=thorough kind=bounded budget=3000
+// ---- larger maps: one harness per invariant state (all states in one harness exhaust memory) ----------------------
+fn one_state(types: &[bool], idx: usize, walked: bool) {
+    let (mut g, h) = state_at(types, Some((idx, walked)));
+    one_step(&mut g, h);
+    mem::forget(g);
+}
+
+//@ obl: id=U12.taiko.protocol.hhhh_i0 harness=u12_taiko_protocol_hhhh_i0 props=C15,C02 tier=thorough kind=bounded budget=1800
 //@ fns: TaikoGradualDifficulty::next, TaikoGradualDifficulty::nth, TaikoGradualDifficulty::len, TaikoGradualDifficulty::size_hint
-//@ bound: bounded: M = 4 objects with hit (H) / non-hit (n) pattern HHHH; every invariant state (each idx 0..=hits, exhausted iterator walked or not) enumerated; operation (next / nth) and the nth argument k symbolic over all usize
-//@ clause: C15 (a) len()==remaining, size_hint; (b) next() Some iff remaining>0 and consumes one; (c) nth(k) Some iff k<remaining, consumes min(k+1,remaining); (d) idx never exceeds the number of hits, len() never underflows; the i-th value has max_combo == i
-stubs! { fn u12_taiko_protocol_hhhh() {
-    all_states(&[true, true, true, true]);
+//@ bound: bounded: 4 objects with hit (H) / non-hit (n) pattern HHHH, calculator at position 0; operation (next / nth) and the nth argument symbolic over all usize
+//@ clause: C15 (a)-(d) and the count clause as U12.taiko.protocol.hhh
+stubs! { fn u12_taiko_protocol_hhhh_i0() {
+    one_state(&[true, true, true, true], 0, false);
 } }
 
-//@ obl: id=U12.taiko.protocol.hhnh harness=u12_taiko_protocol_hhnh props=C15,C02 tier=thorough kind=bounded budget=3000
+//@ obl: id=U12.taiko.protocol.hhhh_i1 harness=u12_taiko_protocol_hhhh_i1 props=C15,C02 tier=thorough kind=bounded budget=1800
 //@ fns: TaikoGradualDifficulty::next, TaikoGradualDifficulty::nth, TaikoGradualDifficulty::len, TaikoGradualDifficulty::size_hint
-//@ bound: bounded: M = 4 objects with hit (H) / non-hit (n) pattern HHnH; every invariant state (each idx 0..=hits, exhausted iterator walked or not) enumerated; operation (next / nth) and the nth argument k symbolic over all usize
-//@ clause: C15 (a) len()==remaining, size_hint; (b) next() Some iff remaining>0 and consumes one; (c) nth(k) Some iff k<remaining, consumes min(k+1,remaining); (d) idx never exceeds the number of hits, len() never underflows; the i-th value has max_combo == i
-stubs! { fn u12_taiko_protocol_hhnh() {
-    all_states(&[true, true, false, true]);
+//@ bound: bounded: 4 objects with hit (H) / non-hit (n) pattern HHHH, calculator at position 1; operation (next / nth) and the nth argument symbolic over all usize
+//@ clause: C15 (a)-(d) and the count clause as U12.taiko.protocol.hhh
+stubs! { fn u12_taiko_protocol_hhhh_i1() {
+    one_state(&[true, true, true, true], 1, false);
 } }
 
-//@ obl: id=U12.taiko.protocol.hhhn harness=u12_taiko_protocol_hhhn props=C15,C02 tier=thorough kind=bounded budget=3000
+//@ obl: id=U12.taiko.protocol.hhhh_i2 harness=u12_taiko_protocol_hhhh_i2 props=C15,C02 tier=thorough kind=bounded budget=1800
 //@ fns: TaikoGradualDifficulty::next, TaikoGradualDifficulty::nth, TaikoGradualDifficulty::len, TaikoGradualDifficulty::size_hint
-//@ bound: bounded: M = 4 objects with hit (H) / non-hit (n) pattern HHHn; every invariant state (each idx 0..=hits, exhausted iterator walked or not) enumerated; operation (next / nth) and the nth argument k symbolic over all usize
-//@ clause: C15 (a) len()==remaining, size_hint; (b) next() Some iff remaining>0 and consumes one; (c) nth(k) Some iff k<remaining, consumes min(k+1,remaining); (d) idx never exceeds the number of hits, len() never underflows; the i-th value has max_combo == i
-stubs! { fn u12_taiko_protocol_hhhn() {
-    all_states(&[true, true, true, false]);
+//@ bound: bounded: 4 objects with hit (H) / non-hit (n) pattern HHHH, calculator at position 2; operation (next / nth) and the nth argument symbolic over all usize
+//@ clause: C15 (a)-(d) and the count clause as U12.taiko.protocol.hhh
+stubs! { fn u12_taiko_protocol_hhhh_i2() {
+    one_state(&[true, true, true, true], 2, false);
 } }
 
-//@ obl: id=U12.taiko.protocol.hhnn harness=u12_taiko_protocol_hhnn props=C15,C02 tier=thorough kind=bounded budget=3000
+//@ obl: id=U12.taiko.protocol.hhhh_i3 harness=u12_taiko_protocol_hhhh_i3 props=C15,C02 tier=thorough kind=bounded budget=1800
 //@ fns: TaikoGradualDifficulty::next, TaikoGradualDifficulty::nth, TaikoGradualDifficulty::len, TaikoGradualDifficulty::size_hint
-//@ bound: bounded: M = 4 objects with hit (H) / non-hit (n) pattern HHnn; every invariant state (each idx 0..=hits, exhausted iterator walked or not) enumerated; operation (next / nth) and the nth argument k symbolic over all usize
-//@ clause: C15 (a) len()==remaining, size_hint; (b) next() Some iff remaining>0 and consumes one; (c) nth(k) Some iff k<remaining, consumes min(k+1,remaining); (d) idx never exceeds the number of hits, len() never underflows; the i-th value has max_combo == i
-stubs! { fn u12_taiko_protocol_hhnn() {
-    all_states(&[true, true, false, false]);
+//@ bound: bounded: 4 objects with hit (H) / non-hit (n) pattern HHHH, calculator at position 3; operation (next / nth) and the nth argument symbolic over all usize
+//@ clause: C15 (a)-(d) and the count clause as U12.taiko.protocol.hhh
+stubs! { fn u12_taiko_protocol_hhhh_i3() {
+    one_state(&[true, true, true, true], 3, false);
 } }
 
-//@ obl: id=U12.taiko.protocol.hhhnh harness=u12_taiko_protocol_hhhnh props=C15,C02 tier=thorough kind=bounded budget=3000
+//@ obl: id=U12.taiko.protocol.hhhh_i4 harness=u12_taiko_protocol_hhhh_i4 props=C15,C02 tier=thorough kind=bounded budget=1800
 //@ fns: TaikoGradualDifficulty::next, TaikoGradualDifficulty::nth, TaikoGradualDifficulty::len, TaikoGradualDifficulty::size_hint
-//@ bound: bounded: M = 5 objects with hit (H) / non-hit (n) pattern HHHnH; every invariant state (each idx 0..=hits, exhausted iterator walked or not) enumerated; operation (next / nth) and the nth argument k symbolic over all usize
-//@ clause: C15 (a) len()==remaining, size_hint; (b) next() Some iff remaining>0 and consumes one; (c) nth(k) Some iff k<remaining, consumes min(k+1,remaining); (d) idx never exceeds the number of hits, len() never underflows; the i-th value has max_combo == i
-stubs! { fn u12_taiko_protocol_hhhnh() {
-    all_states(&[true, true, true, false, true]);
+//@ bound: bounded: 4 objects with hit (H) / non-hit (n) pattern HHHH, calculator at position 4; operation (next / nth) and the nth argument symbolic over all usize
+//@ clause: C15 (a)-(d) and the count clause as U12.taiko.protocol.hhh
+stubs! { fn u12_taiko_protocol_hhhh_i4() {
+    one_state(&[true, true, true, true], 4, false);
+} }
+
+//@ obl: id=U12.taiko.protocol.hhhh_i4w harness=u12_taiko_protocol_hhhh_i4w props=C15,C02 tier=thorough kind=bounded budget=1800
+//@ fns: TaikoGradualDifficulty::next, TaikoGradualDifficulty::nth, TaikoGradualDifficulty::len, TaikoGradualDifficulty::size_hint
+//@ bound: bounded: 4 objects with hit (H) / non-hit (n) pattern HHHH, calculator at position 4 (exhausted, iterator walked to the end); operation (next / nth) and the nth argument symbolic over all usize
+//@ clause: C15 (a)-(d) and the count clause as U12.taiko.protocol.hhh
+stubs! { fn u12_taiko_protocol_hhhh_i4w() {
+    one_state(&[true, true, true, true], 4, true);
+} }
+
+//@ obl: id=U12.taiko.protocol.hhnh_i0 harness=u12_taiko_protocol_hhnh_i0 props=C15,C02 tier=thorough kind=bounded budget=1800
+//@ fns: TaikoGradualDifficulty::next, TaikoGradualDifficulty::nth, TaikoGradualDifficulty::len, TaikoGradualDifficulty::size_hint
+//@ bound: bounded: 4 objects with hit (H) / non-hit (n) pattern HHnH, calculator at position 0; operation (next / nth) and the nth argument symbolic over all usize
+//@ clause: C15 (a)-(d) and the count clause as U12.taiko.protocol.hhh
+stubs! { fn u12_taiko_protocol_hhnh_i0() {
+    one_state(&[true, true, false, true], 0, false);
+} }
+
+//@ obl: id=U12.taiko.protocol.hhnh_i1 harness=u12_taiko_protocol_hhnh_i1 props=C15,C02 tier=thorough kind=bounded budget=1800
+//@ fns: TaikoGradualDifficulty::next, TaikoGradualDifficulty::nth, TaikoGradualDifficulty::len, TaikoGradualDifficulty::size_hint
+//@ bound: bounded: 4 objects with hit (H) / non-hit (n) pattern HHnH, calculator at position 1; operation (next / nth) and the nth argument symbolic over all usize
+//@ clause: C15 (a)-(d) and the count clause as U12.taiko.protocol.hhh
+stubs! { fn u12_taiko_protocol_hhnh_i1() {
+    one_state(&[true, true, false, true], 1, false);
+} }
+
+//@ obl: id=U12.taiko.protocol.hhnh_i2 harness=u12_taiko_protocol_hhnh_i2 props=C15,C02 tier=thorough kind=bounded budget=1800
+//@ fns: TaikoGradualDifficulty::next, TaikoGradualDifficulty::nth, TaikoGradualDifficulty::len, TaikoGradualDifficulty::size_hint
+//@ bound: bounded: 4 objects with hit (H) / non-hit (n) pattern HHnH, calculator at position 2; operation (next / nth) and the nth argument symbolic over all usize
+//@ clause: C15 (a)-(d) and the count clause as U12.taiko.protocol.hhh
+stubs! { fn u12_taiko_protocol_hhnh_i2() {
+    one_state(&[true, true, false, true], 2, false);
+} }
+
+//@ obl: id=U12.taiko.protocol.hhnh_i3 harness=u12_taiko_protocol_hhnh_i3 props=C15,C02 tier=thorough kind=bounded budget=1800
+//@ fns: TaikoGradualDifficulty::next, TaikoGradualDifficulty::nth, TaikoGradualDifficulty::len, TaikoGradualDifficulty::size_hint
+//@ bound: bounded: 4 objects with hit (H) / non-hit (n) pattern HHnH, calculator at position 3; operation (next / nth) and the nth argument symbolic over all usize
+//@ clause: C15 (a)-(d) and the count clause as U12.taiko.protocol.hhh
+stubs! { fn u12_taiko_protocol_hhnh_i3() {
+    one_state(&[true, true, false, true], 3, false);
+} }
+
+//@ obl: id=U12.taiko.protocol.hhnh_i3w harness=u12_taiko_protocol_hhnh_i3w props=C15,C02 tier=thorough kind=bounded budget=1800
+//@ fns: TaikoGradualDifficulty::next, TaikoGradualDifficulty::nth, TaikoGradualDifficulty::len, TaikoGradualDifficulty::size_hint
+//@ bound: bounded: 4 objects with hit (H) / non-hit (n) pattern HHnH, calculator at position 3 (exhausted, iterator walked to the end); operation (next / nth) and the nth argument symbolic over all usize
+//@ clause: C15 (a)-(d) and the count clause as U12.taiko.protocol.hhh
+stubs! { fn u12_taiko_protocol_hhnh_i3w() {
+    one_state(&[true, true, false, true], 3, true);
+} }
+
+//@ obl: id=U12.taiko.protocol.hhhn_i0 harness=u12_taiko_protocol_hhhn_i0 props=C15,C02 tier=thorough kind=bounded budget=1800
+//@ fns: TaikoGradualDifficulty::next, TaikoGradualDifficulty::nth, TaikoGradualDifficulty::len, TaikoGradualDifficulty::size_hint
+//@ bound: bounded: 4 objects with hit (H) / non-hit (n) pattern HHHn, calculator at position 0; operation (next / nth) and the nth argument symbolic over all usize
+//@ clause: C15 (a)-(d) and the count clause as U12.taiko.protocol.hhh
+stubs! { fn u12_taiko_protocol_hhhn_i0() {
+    one_state(&[true, true, true, false], 0, false);
+} }
+
+//@ obl: id=U12.taiko.protocol.hhhn_i1 harness=u12_taiko_protocol_hhhn_i1 props=C15,C02 tier=thorough kind=bounded budget=1800
+//@ fns: TaikoGradualDifficulty::next, TaikoGradualDifficulty::nth, TaikoGradualDifficulty::len, TaikoGradualDifficulty::size_hint
+//@ bound: bounded: 4 objects with hit (H) / non-hit (n) pattern HHHn, calculator at position 1; operation (next / nth) and the nth argument symbolic over all usize
+//@ clause: C15 (a)-(d) and the count clause as U12.taiko.protocol.hhh
+stubs! { fn u12_taiko_protocol_hhhn_i1() {
+    one_state(&[true, true, true, false], 1, false);
+} }
+
+//@ obl: id=U12.taiko.protocol.hhhn_i2 harness=u12_taiko_protocol_hhhn_i2 props=C15,C02 tier=thorough kind=bounded budget=1800
+//@ fns: TaikoGradualDifficulty::next, TaikoGradualDifficulty::nth, TaikoGradualDifficulty::len, TaikoGradualDifficulty::size_hint
+//@ bound: bounded: 4 objects with hit (H) / non-hit (n) pattern HHHn, calculator at position 2; operation (next / nth) and the nth argument symbolic over all usize
+//@ clause: C15 (a)-(d) and the count clause as U12.taiko.protocol.hhh
+stubs! { fn u12_taiko_protocol_hhhn_i2() {
+    one_state(&[true, true, true, false], 2, false);
+} }
+
+//@ obl: id=U12.taiko.protocol.hhhn_i3 harness=u12_taiko_protocol_hhhn_i3 props=C15,C02 tier=thorough kind=bounded budget=1800
+//@ fns: TaikoGradualDifficulty::next, TaikoGradualDifficulty::nth, TaikoGradualDifficulty::len, TaikoGradualDifficulty::size_hint
+//@ bound: bounded: 4 objects with hit (H) / non-hit (n) pattern HHHn, calculator at position 3; operation (next / nth) and the nth argument symbolic over all usize
+//@ clause: C15 (a)-(d) and the count clause as U12.taiko.protocol.hhh
+stubs! { fn u12_taiko_protocol_hhhn_i3() {
+    one_state(&[true, true, true, false], 3, false);
+} }
+
+//@ obl: id=U12.taiko.protocol.hhhn_i3w harness=u12_taiko_protocol_hhhn_i3w props=C15,C02 tier=thorough kind=bounded budget=1800
+//@ fns: TaikoGradualDifficulty::next, TaikoGradualDifficulty::nth, TaikoGradualDifficulty::len, TaikoGradualDifficulty::size_hint
+//@ bound: bounded: 4 objects with hit (H) / non-hit (n) pattern HHHn, calculator at position 3 (exhausted, iterator walked to the end); operation (next / nth) and the nth argument symbolic over all usize
+//@ clause: C15 (a)-(d) and the count clause as U12.taiko.protocol.hhh
+stubs! { fn u12_taiko_protocol_hhhn_i3w() {
+    one_state(&[true, true, true, false], 3, true);
+} }
+
+//@ obl: id=U12.taiko.protocol.hhnn_i0 harness=u12_taiko_protocol_hhnn_i0 props=C15,C02 tier=thorough kind=bounded budget=1800
+//@ fns: TaikoGradualDifficulty::next, TaikoGradualDifficulty::nth, TaikoGradualDifficulty::len, TaikoGradualDifficulty::size_hint
+//@ bound: bounded: 4 objects with hit (H) / non-hit (n) pattern HHnn, calculator at position 0; operation (next / nth) and the nth argument symbolic over all usize
+//@ clause: C15 (a)-(d) and the count clause as U12.taiko.protocol.hhh
+stubs! { fn u12_taiko_protocol_hhnn_i0() {
+    one_state(&[true, true, false, false], 0, false);
+} }
+
+//@ obl: id=U12.taiko.protocol.hhnn_i1 harness=u12_taiko_protocol_hhnn_i1 props=C15,C02 tier=thorough kind=bounded budget=1800
+//@ fns: TaikoGradualDifficulty::next, TaikoGradualDifficulty::nth, TaikoGradualDifficulty::len, TaikoGradualDifficulty::size_hint
+//@ bound: bounded: 4 objects with hit (H) / non-hit (n) pattern HHnn, calculator at position 1; operation (next / nth) and the nth argument symbolic over all usize
+//@ clause: C15 (a)-(d) and the count clause as U12.taiko.protocol.hhh
+stubs! { fn u12_taiko_protocol_hhnn_i1() {
+    one_state(&[true, true, false, false], 1, false);
+} }
+
+//@ obl: id=U12.taiko.protocol.hhnn_i2 harness=u12_taiko_protocol_hhnn_i2 props=C15,C02 tier=thorough kind=bounded budget=1800
+//@ fns: TaikoGradualDifficulty::next, TaikoGradualDifficulty::nth, TaikoGradualDifficulty::len, TaikoGradualDifficulty::size_hint
+//@ bound: bounded: 4 objects with hit (H) / non-hit (n) pattern HHnn, calculator at position 2; operation (next / nth) and the nth argument symbolic over all usize
+//@ clause: C15 (a)-(d) and the count clause as U12.taiko.protocol.hhh
+stubs! { fn u12_taiko_protocol_hhnn_i2() {
+    one_state(&[true, true, false, false], 2, false);
+} }
+
+//@ obl: id=U12.taiko.protocol.hhnn_i2w harness=u12_taiko_protocol_hhnn_i2w props=C15,C02 tier=thorough kind=bounded budget=1800
+//@ fns: TaikoGradualDifficulty::next, TaikoGradualDifficulty::nth, TaikoGradualDifficulty::len, TaikoGradualDifficulty::size_hint
+//@ bound: bounded: 4 objects with hit (H) / non-hit (n) pattern HHnn, calculator at position 2 (exhausted, iterator walked to the end); operation (next / nth) and the nth argument symbolic over all usize
+//@ clause: C15 (a)-(d) and the count clause as U12.taiko.protocol.hhh
+stubs! { fn u12_taiko_protocol_hhnn_i2w() {
+    one_state(&[true, true, false, false], 2, true);
+} }
+
+//@ obl: id=U12.taiko.protocol.hhhnh_i0 harness=u12_taiko_protocol_hhhnh_i0 props=C15,C02 tier=thorough kind=bounded budget=1800
+//@ fns: TaikoGradualDifficulty::next, TaikoGradualDifficulty::nth, TaikoGradualDifficulty::len, TaikoGradualDifficulty::size_hint
+//@ bound: bounded: 5 objects with hit (H) / non-hit (n) pattern HHHnH, calculator at position 0; operation (next / nth) and the nth argument symbolic over all usize
+//@ clause: C15 (a)-(d) and the count clause as U12.taiko.protocol.hhh
+stubs! { fn u12_taiko_protocol_hhhnh_i0() {
+    one_state(&[true, true, true, false, true], 0, false);
+} }
+
+//@ obl: id=U12.taiko.protocol.hhhnh_i1 harness=u12_taiko_protocol_hhhnh_i1 props=C15,C02 tier=thorough kind=bounded budget=1800
+//@ fns: TaikoGradualDifficulty::next, TaikoGradualDifficulty::nth, TaikoGradualDifficulty::len, TaikoGradualDifficulty::size_hint
+//@ bound: bounded: 5 objects with hit (H) / non-hit (n) pattern HHHnH, calculator at position 1; operation (next / nth) and the nth argument symbolic over all usize
+//@ clause: C15 (a)-(d) and the count clause as U12.taiko.protocol.hhh
+stubs! { fn u12_taiko_protocol_hhhnh_i1() {
+    one_state(&[true, true, true, false, true], 1, false);
+} }
+
+//@ obl: id=U12.taiko.protocol.hhhnh_i2 harness=u12_taiko_protocol_hhhnh_i2 props=C15,C02 tier=thorough kind=bounded budget=1800
+//@ fns: TaikoGradualDifficulty::next, TaikoGradualDifficulty::nth, TaikoGradualDifficulty::len, TaikoGradualDifficulty::size_hint
+//@ bound: bounded: 5 objects with hit (H) / non-hit (n) pattern HHHnH, calculator at position 2; operation (next / nth) and the nth argument symbolic over all usize
+//@ clause: C15 (a)-(d) and the count clause as U12.taiko.protocol.hhh
+stubs! { fn u12_taiko_protocol_hhhnh_i2() {
+    one_state(&[true, true, true, false, true], 2, false);
+} }
+
+//@ obl: id=U12.taiko.protocol.hhhnh_i3 harness=u12_taiko_protocol_hhhnh_i3 props=C15,C02 tier=thorough kind=bounded budget=1800
+//@ fns: TaikoGradualDifficulty::next, TaikoGradualDifficulty::nth, TaikoGradualDifficulty::len, TaikoGradualDifficulty::size_hint
+//@ bound: bounded: 5 objects with hit (H) / non-hit (n) pattern HHHnH, calculator at position 3; operation (next / nth) and the nth argument symbolic over all usize
+//@ clause: C15 (a)-(d) and the count clause as U12.taiko.protocol.hhh
+stubs! { fn u12_taiko_protocol_hhhnh_i3() {
+    one_state(&[true, true, true, false, true], 3, false);
+} }
+
+//@ obl: id=U12.taiko.protocol.hhhnh_i4 harness=u12_taiko_protocol_hhhnh_i4 props=C15,C02 tier=thorough kind=bounded budget=1800
+//@ fns: TaikoGradualDifficulty::next, TaikoGradualDifficulty::nth, TaikoGradualDifficulty::len, TaikoGradualDifficulty::size_hint
+//@ bound: bounded: 5 objects with hit (H) / non-hit (n) pattern HHHnH, calculator at position 4; operation (next / nth) and the nth argument symbolic over all usize
+//@ clause: C15 (a)-(d) and the count clause as U12.taiko.protocol.hhh
+stubs! { fn u12_taiko_protocol_hhhnh_i4() {
+    one_state(&[true, true, true, false, true], 4, false);
+} }
+
+//@ obl: id=U12.taiko.protocol.hhhnh_i4w harness=u12_taiko_protocol_hhhnh_i4w props=C15,C02 tier=thorough kind=bounded budget=1800
+//@ fns: TaikoGradualDifficulty::next, TaikoGradualDifficulty::nth, TaikoGradualDifficulty::len, TaikoGradualDifficulty::size_hint
+//@ bound: bounded: 5 objects with hit (H) / non-hit (n) pattern HHHnH, calculator at position 4 (exhausted, iterator walked to the end); operation (next / nth) and the nth argument symbolic over all usize
+//@ clause: C15 (a)-(d) and the count clause as U12.taiko.protocol.hhh
+stubs! { fn u12_taiko_protocol_hhhnh_i4w() {
+    one_state(&[true, true, true, false, true], 4, true);
 } }
 
 //@ obl: id=U12.taiko.short_maps harness=u12_taiko_short_maps props=C15,C02 tier=quick kind=bounded
